@@ -871,7 +871,65 @@ func checkC16(w *World, r *Report) {
 				}
 			}
 		}
-		r.Check(len(bad) == 0, "C16.R2", fname(fn)+":no-panic", "no panic, fatal exit, unchecked assertion or detached goroutine on peer data", w.fnPos(fn), strings.Join(bad, "; "))
+		// a value that comes with an error is used (invoked, dereferenced) only where the error is known to be nil
+		for i, in := range g.ins {
+			var recvV ssa.Value
+			switch x := in.(type) {
+			case ssa.CallInstruction:
+				if x.Common().IsInvoke() {
+					recvV = x.Common().Value
+				}
+			case *ssa.FieldAddr:
+				recvV = x.X
+			case *ssa.UnOp:
+				if x.Op == token.MUL {
+					recvV = x.X
+				}
+			}
+			ex, isEx := recvV.(*ssa.Extract)
+			if !isEx || ex.Index != 0 {
+				continue
+			}
+			call, isCall := ex.Tuple.(*ssa.Call)
+			if !isCall {
+				continue
+			}
+			sig := call.Call.Signature()
+			if sig.Results().Len() != 2 || sig.Results().At(1).Type().String() != "error" {
+				continue
+			}
+			var errV ssa.Value
+			if call.Referrers() != nil {
+				for _, rf := range *call.Referrers() {
+					if e2, ok := rf.(*ssa.Extract); ok && e2.Index == 1 {
+						errV = e2
+					}
+				}
+			}
+			checked := false
+			for _, f := range g.FactsAt(i) {
+				b, isB := f.Cond.(*ssa.BinOp)
+				if !isB || errV == nil {
+					continue
+				}
+				var other ssa.Value
+				if k, isK := b.Y.(*ssa.Const); isK && k.IsNil() {
+					other = b.X
+				} else if k, isK := b.X.(*ssa.Const); isK && k.IsNil() {
+					other = b.Y
+				}
+				if other != errV {
+					continue
+				}
+				if (b.Op == token.EQL && f.Val) || (b.Op == token.NEQ && !f.Val) {
+					checked = true
+				}
+			}
+			if !checked {
+				bad = append(bad, "the result of "+w.pathOf(call)+" is used at "+w.pos(in.Pos())+" on a path where its error was not found nil (a nil result panics)")
+			}
+		}
+		r.Check(len(bad) == 0, "C16.R2", fname(fn)+":no-panic", "no panic, fatal exit, unchecked assertion or detached goroutine on peer data; results that come with an error are used only after the error was found nil", w.fnPos(fn), strings.Join(bad, "; "))
 	}
 	// error edges of the handler return the error
 	{
@@ -1257,6 +1315,11 @@ func checkC17(w *World, r *Report) {
 			"a writer whose stream was closed by the peer stays registered: every later message for that address is silently lost, no RemoteUnreachableEvent, no re-dial")
 	}
 	checkReaderDelivery(w, r, a, "C17.R6")
+	// R7: "with its sender": the wire tables that carry target and sender are sound (C15.R1, R2, R4, R8)
+	r.Rule("C17.R7", "the batch encoding keeps every message's own target and sender: index/table agreement, lookup helpers, tables keyed by (address, id), one codec family (C15)", 8)
+	importRules(w, r, checkC15, "C15", "C17.R7", func(o *Obligation) bool {
+		return o.Rule == "C15.R1" || o.Rule == "C15.R2" || o.Rule == "C15.R4" || o.Rule == "C15.R8"
+	})
 	// R5
 	{
 		rstart := w.Method("remote", "Remote", "Start")
@@ -1333,6 +1396,13 @@ func checkC17(w *World, r *Report) {
 					}
 					if !sg.OnlyVia(eq[initK], i) {
 						ok, detail = false, "Start does work ("+w.pos(in.Pos())+") although the remote is not in state 'initialized': a second Start re-listens / respawns the router"
+					}
+				}
+				// a refused Start leaves the remote as it was: no field of the receiver is written outside the guard
+				if st, isSt := in.(*ssa.Store); isSt {
+					if fa, isFA := st.Addr.(*ssa.FieldAddr); isFA && w.pathOf(fa.X) == "P0" && !sg.OnlyVia(eq[initK], i) {
+						fnm, _ := fieldName(fa)
+						ok, detail = false, "Start writes Remote."+fnm+" ("+w.pos(in.Pos())+") before it has checked the state: a refused second Start (e.g. from another engine) re-wires the running remote"
 					}
 				}
 			}
